@@ -111,6 +111,8 @@ def run(ctx):
             run_.close()
         for k, v in reach.items():
             ctx.count(k, v)
+        if getattr(gen, 'planned_late_replace', 0):
+            ctx.count('late_created_event_meets_next_generation', gen.planned_late_replace)
         ctx.count('cases_hashseed_%s' % (ctx.hashseed or 'unset'))
         ctx.count('cases_tidy' if gen.tidy else 'cases_hostile')
         ctx.count('operations_applied', len(ops))
